@@ -201,4 +201,39 @@ theorem rollForwardNtC_any_tag :
 
 
 
+
+/-- local-tx-monitor ReplyNextTx: the decoder as found dropped extra items of the message and of the
+    transaction wrapper (`[6, [1, tx], 0]`, `[6, [1, tx, 0]]`); after the `fix:` commit both are rejected. -/
+theorem replyNextTx_witness :
+    (decReplyNextTx true Mode.lax (.arr .w0 [.int false .w0 6,
+        .arr .w0 [.int false .w0 1, .tag .w1 24 (.str false .w0 [1])], .int false .w0 0])).map render
+      = some "(6,(1,h01))" ∧
+    (decReplyNextTx false Mode.lax (.arr .w0 [.int false .w0 6,
+        .arr .w0 [.int false .w0 1, .tag .w1 24 (.str false .w0 [1])], .int false .w0 0])).isNone = true ∧
+    (decReplyNextTx true Mode.lax (.arr .w0 [.int false .w0 6,
+        .arr .w0 [.int false .w0 1, .tag .w1 24 (.str false .w0 [1]), .int false .w0 0]])).map render
+      = some "(6,(1,h01))" ∧
+    (decReplyNextTx false Mode.lax (.arr .w0 [.int false .w0 6,
+        .arr .w0 [.int false .w0 1, .tag .w1 24 (.str false .w0 [1]), .int false .w0 0]])).isNone = true ∧
+    (decReplyNextTx false Mode.lax (.arr .w0 [.int false .w0 6,
+        .arr .w0 [.int false .w0 1, .tag .w1 24 (.str false .w0 [1])]])).map render = some "(6,(1,h01))" := by
+  decide
+
+/-- after the repair: one or two items, and a two-item transaction wrapper -/
+theorem replyNextTx_arity (m : Mode) (t : Cbor) (v : Val) (h : decReplyNextTx false m t = some v) :
+    ∃ xs, structItems m t = some xs ∧ (xs.length = 1 ∨ xs.length = 2) := by
+  unfold decReplyNextTx at h
+  split at h
+  · rename_i ty rest hit
+    refine ⟨ty :: rest, hit, ?_⟩
+    split at h
+    · cases h
+    · split at h
+      · left; rfl
+      · rename_i w more
+        cases more with
+        | nil => right; rfl
+        | cons a b => simp at h
+  · cases h
+
 end GV.Props.C04
